@@ -319,11 +319,28 @@ open LiteFSVerif LiteFSVerif.BA LiteFSVerif.Cks
 /-- a rollback-journal commit publishes exactly one file whose pages are, in increasing page
     order, the current database-file bytes of every dirty page within the new size (taken from the
     header's page count) except the lock page -/
-theorem commitJournalValid_captures (s s' : Eng) (mode : Nat) (h : commitJournalValid s mode = .ok s') :
+theorem invalidateJournal_pageSize (s s' : Eng) (mode : Nat) (h : invalidateJournal s mode = .ok s') :
+    s'.pageSize = s.pageSize := by
+  unfold invalidateJournal at h
+  match mode, h with
+  | 0, h =>
+    simp only [bind, Except.bind, pure, Except.pure] at h
+    cases hj : s.journal <;> simp [hj, fail, pure, Except.pure, bind, Except.bind] at h
+    rw [← h]
+  | 1, h =>
+    simp only [bind, Except.bind, pure, Except.pure] at h
+    cases hj : s.journal <;> simp [hj, fail, pure, Except.pure, bind, Except.bind] at h
+    rw [← h]
+  | n + 2, h =>
+    simp only [bind, Except.bind, pure, Except.pure] at h
+    cases hj : s.journal <;> simp [hj] at h <;> (rw [← h])
+
+theorem commitJournalValid_captures2 (s s' : Eng) (mode : Nat) (h : commitJournalValid s mode = .ok s') :
     ∃ (dbf : ByteArray) (lock : Nat) (f : LTXFile), s.dbFile = some dbf ∧ lockPgno s.pageSize = .ok lock ∧
       s'.ltx = addLTX s.ltx f ∧ f.commit = be32 dbf 28 ∧
       f.pages = ((sortNat (s.dirty.filter (· ≤ be32 dbf 28))).filter (· ≠ lock)).map
-        (fun p => (p, dbf.extract ((p - 1) * s.pageSize) ((p - 1) * s.pageSize + s.pageSize))) := by
+        (fun p => (p, dbf.extract ((p - 1) * s.pageSize) ((p - 1) * s.pageSize + s.pageSize))) ∧
+      f.pageSize = s.pageSize ∧ s'.dbFile = s.dbFile ∧ s'.pageSize = s.pageSize := by
   unfold commitJournalValid at h
   obtain ⟨dbf, hdb, h⟩ := M_bind_ok h
   have hdbf : s.dbFile = some dbf := by
@@ -345,10 +362,23 @@ theorem commitJournalValid_captures (s s' : Eng) (mode : Nat) (h : commitJournal
   have hpages := journalPages_spec _ dbf (s.posTxid + 1) (be32 dbf 28) lock _ [] 0 false r1 hloop
   have hf := invalidateJournal_frame _ _ _ hinv
   let f : LTXFile := { minTxid := s.posTxid + 1, maxTxid := s.posTxid + 1, pre := s.posChk, post := r2.2, commit := be32 dbf 28, pageSize := s.pageSize, pages := r1.1 }
-  refine ⟨dbf, lock, f, hdbf, hlock, ?_, rfl, ?_⟩
+  refine ⟨dbf, lock, f, hdbf, hlock, ?_, rfl, ?_, rfl, ?_, ?_⟩
   · show s2.ltx = _
     rw [hf.2.2.2.1]
   · simpa using hpages
+  · show s2.dbFile = _
+    rw [hf.1]
+  · have := invalidateJournal_pageSize _ _ _ hinv
+    show s2.pageSize = _
+    rw [this]
+
+theorem commitJournalValid_captures (s s' : Eng) (mode : Nat) (h : commitJournalValid s mode = .ok s') :
+    ∃ (dbf : ByteArray) (lock : Nat) (f : LTXFile), s.dbFile = some dbf ∧ lockPgno s.pageSize = .ok lock ∧
+      s'.ltx = addLTX s.ltx f ∧ f.commit = be32 dbf 28 ∧
+      f.pages = ((sortNat (s.dirty.filter (· ≤ be32 dbf 28))).filter (· ≠ lock)).map
+        (fun p => (p, dbf.extract ((p - 1) * s.pageSize) ((p - 1) * s.pageSize + s.pageSize))) := by
+  obtain ⟨dbf, lock, f, h1, h2, h3, h4, h5, _⟩ := commitJournalValid_captures2 s s' mode h
+  exact ⟨dbf, lock, f, h1, h2, h3, h4, h5⟩
 
 end LiteFSVerif.Engine
 
@@ -399,16 +429,70 @@ theorem walPages_spec (s : Eng) (wal : ByteArray) (offsets : List (Nat × Nat)) 
       rw [this]
       simp [hp, List.append_assoc]
 
+theorem encodePageOK_facts {txid commit ps prev pgno : Nat} (h : encodePageOK txid commit ps prev pgno = true) :
+    pgno ≠ 0 ∧ pgno ≤ commit := by
+  unfold encodePageOK at h
+  simp only at h
+  split at h
+  · cases h
+  · rename_i hc
+    simp only [Bool.or_eq_true, decide_eq_true_eq, not_or, Nat.not_lt] at hc
+    exact ⟨hc.1.2, hc.1.1⟩
+
+theorem walPages_valid (s : Eng) (wal : ByteArray) (offsets : List (Nat × Nat)) (txid commit lock : Nat) :
+    ∀ (pgnos : List Nat) (acc : List (Nat × ByteArray)) (nc : List (Nat × Chk)) (prev : Nat)
+      (r : List (Nat × ByteArray) × List (Nat × Chk) × Nat),
+    pgnos.foldlM (fun (st : List (Nat × ByteArray) × List (Nat × Chk) × Nat) pgno => do
+      let (pages, nc, prev) := st
+      if pgno = lock then pure st else
+      let off := (offsets.lookup pgno).getD 0
+      let data := wal.extract (off + 24) (off + 24 + s.pageSize)
+      ensure s (¬ (!encodePageOK txid commit s.pageSize prev pgno)) .err
+      let _ ← liftCk s (s.ck.pageChecksum s.w.chksums s.pageSize pgno s.pageN [])
+      pure (pages ++ [(pgno, data)], mapSet nc pgno (pageChk pgno data), pgno)) (acc, nc, prev) = (.ok r : M _) →
+    ∀ q ∈ pgnos, q ≠ lock → q ≠ 0 ∧ q ≤ commit := by
+  intro pgnos
+  induction pgnos with
+  | nil => intro _ _ _ _ _ q hq; cases hq
+  | cons p rest ih =>
+    intro acc nc prev r h q hq hql
+    simp only [List.foldlM_cons] at h
+    obtain ⟨st1, h1, h2⟩ := M_bind_ok h
+    by_cases hp : p = lock
+    · simp only [hp, if_true, pure, Except.pure] at h1
+      injection h1 with h1
+      subst h1
+      cases hq with
+      | head => exact absurd hp hql
+      | tail _ hm => exact ih acc nc prev r h2 q hm hql
+    · simp only [hp, if_false] at h1
+      obtain ⟨_, hens, h1⟩ := M_bind_ok h1
+      obtain ⟨_, _, h1⟩ := M_bind_ok h1
+      simp only [pure, Except.pure] at h1
+      injection h1 with h1
+      subst h1
+      cases hq with
+      | head =>
+        have := ensure_ok hens
+        have hok : encodePageOK txid commit s.pageSize prev p = true := by
+          cases hh : encodePageOK txid commit s.pageSize prev p with
+          | true => rfl
+          | false => rw [hh] at this; simp at this
+        exact encodePageOK_facts hok
+      | tail _ hm => exact ih _ _ _ r h2 q hm hql
+
 /-- a WAL commit that finds a complete transaction publishes one file whose pages are, in
     increasing page order, the bytes of the *last* frame of each page within that transaction (as
     located by `buildTxFrameOffsets`), except the lock page, and whose size is the commit frame's -/
-theorem commitWAL_captures (s s' : Eng) (h : commitWALBody s = .ok s') (hne : s' ≠ s) :
+theorem commitWAL_captures2 (s s' : Eng) (h : commitWALBody s = .ok s') (hne : s' ≠ s) :
     ∃ (wal : ByteArray) (tx : TxFrames) (lock : Nat) (f : LTXFile), s.wal = some wal ∧
       buildTxFrames wal s.pageSize s.w.offset s.w.bo s.w.salt1 s.w.salt2 s.w.chk1 s.w.chk2 = .ok (some tx) ∧
       lockPgno s.pageSize = .ok lock ∧ s'.ltx = addLTX s.ltx f ∧ f.commit = tx.commit ∧
       f.walOffset = s.w.offset ∧ f.walOffset + f.walSize = tx.endOffset + (s.w.offset - tx.endOffset) ∧
       f.pages = ((sortNat (tx.offsets.map (·.1))).filter (· ≠ lock)).map
-        (fun p => (p, wal.extract ((tx.offsets.lookup p).getD 0 + 24) ((tx.offsets.lookup p).getD 0 + 24 + s.pageSize))) := by
+        (fun p => (p, wal.extract ((tx.offsets.lookup p).getD 0 + 24) ((tx.offsets.lookup p).getD 0 + 24 + s.pageSize))) ∧
+      f.pageSize = s.pageSize ∧
+      (∀ q ∈ (sortNat (tx.offsets.map (·.1))).filter (· ≠ lock), q ≠ 0 ∧ q ≤ tx.commit) := by
   unfold commitWALBody at h
   obtain ⟨wal, hw, h⟩ := M_bind_ok h
   have hwal : s.wal = some wal := by
@@ -438,9 +522,23 @@ theorem commitWAL_captures (s s' : Eng) (h : commitWALBody s = .ok s') (hne : s'
     subst h
     have hpages := walPages_spec s wal tx.offsets (s.posTxid + 1) tx.commit lock _ [] [] 0 r1 hloop
     let f : LTXFile := { minTxid := s.posTxid + 1, maxTxid := s.posTxid + 1, pre := s.posChk, post := r2.2, commit := tx.commit, pageSize := s.pageSize, walOffset := s.w.offset, walSize := tx.endOffset - s.w.offset, salt1 := s.w.salt1, salt2 := s.w.salt2, pages := r1.1 }
-    refine ⟨wal, tx, lock, f, hwal, htx', hlock, rfl, rfl, rfl, ?_, ?_⟩
+    have hvalid := walPages_valid s wal tx.offsets (s.posTxid + 1) tx.commit lock _ [] [] 0 r1 hloop
+    refine ⟨wal, tx, lock, f, hwal, htx', hlock, rfl, rfl, rfl, ?_, ?_, rfl, ?_⟩
     · show s.w.offset + (tx.endOffset - s.w.offset) = tx.endOffset + (s.w.offset - tx.endOffset)
       omega
     · simpa using hpages
+    · intro q hq
+      have hq' := List.mem_filter.mp hq
+      exact hvalid q hq'.1 (by simpa using hq'.2)
+
+theorem commitWAL_captures (s s' : Eng) (h : commitWALBody s = .ok s') (hne : s' ≠ s) :
+    ∃ (wal : ByteArray) (tx : TxFrames) (lock : Nat) (f : LTXFile), s.wal = some wal ∧
+      buildTxFrames wal s.pageSize s.w.offset s.w.bo s.w.salt1 s.w.salt2 s.w.chk1 s.w.chk2 = .ok (some tx) ∧
+      lockPgno s.pageSize = .ok lock ∧ s'.ltx = addLTX s.ltx f ∧ f.commit = tx.commit ∧
+      f.walOffset = s.w.offset ∧ f.walOffset + f.walSize = tx.endOffset + (s.w.offset - tx.endOffset) ∧
+      f.pages = ((sortNat (tx.offsets.map (·.1))).filter (· ≠ lock)).map
+        (fun p => (p, wal.extract ((tx.offsets.lookup p).getD 0 + 24) ((tx.offsets.lookup p).getD 0 + 24 + s.pageSize))) := by
+  obtain ⟨wal, tx, lock, f, h1, h2, h3, h4, h5, h6, h7, h8, _⟩ := commitWAL_captures2 s s' h hne
+  exact ⟨wal, tx, lock, f, h1, h2, h3, h4, h5, h6, h7, h8⟩
 
 end LiteFSVerif.Engine
